@@ -1103,3 +1103,529 @@ Proof.
       cbn [pamt pacct]. rewrite <- (vm_at_entry m S e c He), A1. cbn [vm_at]. lra.
     + intros c. rewrite vm_total_report, A2. cbn [vm_total]. lra.
 Qed.
+
+(* ---- by_payee_posts and day_of_week_posts: subtotals over a partition into buckets ---- *)
+Fixpoint buckets_total {K} (m : list (K * list post)) (c : option comm) : Q :=
+  match m with
+  | [] => 0
+  | e :: m' => sum_den (snd e) c + buckets_total m' c
+  end.
+
+Lemma buckets_total_concat {K} (m : list (K * list post)) c :
+  (buckets_total m c == sum_den (concat (map snd m)) c)%Q.
+Proof.
+  induction m as [|e m IH]; cbn [buckets_total map concat sum_den]; [lra|].
+  rewrite sum_den_app, IH. lra.
+Qed.
+
+(* the rows are, bucket after bucket, the rows subtotal_posts reports for the bucket *)
+Lemma report_buckets_rows {K} (py : K -> payee) : forall m b rows,
+  report_buckets py b m = Ok rows ->
+  exists rr, rows = concat rr /\
+    Forall2 (fun e o => exists b', subtotal_group (fun _ => py (fst e)) (xid_subtotal b') (snd e) = Ok o) m rr.
+Proof.
+  induction m as [|[k ps] m IH]; intros b rows H; cbn [report_buckets] in H.
+  - injection H as <-. exists []. split; [reflexivity|constructor].
+  - destruct (subtotal_group (fun _ => py k) (xid_subtotal b) ps) as [r|] eqn:R; cbn [bind] in H; [|discriminate].
+    destruct (report_buckets py (b + 1) m) as [rs|] eqn:RS; cbn [bind] in H; [|discriminate].
+    injection H as <-. destruct (IH _ _ RS) as (rr & -> & F).
+    exists (r :: rr). split; [reflexivity|]. constructor; [|exact F]. exists b. exact R.
+Qed.
+
+Lemma report_buckets_total {K} (py : K -> payee) m b rows c :
+  report_buckets py b m = Ok rows -> (sum_den rows c == buckets_total m c)%Q.
+Proof.
+  intros H. destruct (report_buckets_rows py m b rows H) as (rr & -> & F).
+  clear H. induction F as [|e o m rr (b' & R) F IH]; cbn [concat buckets_total sum_den]; [lra|].
+  rewrite sum_den_app, IH.
+  destruct (subtotal_group_sums _ _ _ _ R) as (_ & _ & _ & T). rewrite T. lra.
+Qed.
+
+Definition payee_is (k : str) (p : post) : Prop := ppayee p = PName k.
+
+Definition buckets_ok (m : list (str * list post)) : Prop :=
+  Forall (fun e => Forall (payee_is (fst e)) (snd e)) m.
+
+Lemma bucket_insert_perm k p m :
+  Permutation (concat (map snd (bucket_insert k p m))) (p :: concat (map snd m)).
+Proof.
+  induction m as [|[k' ps] m IH]; cbn [bucket_insert]; [cbn; reflexivity|].
+  destruct (str_compare k k'); cbn [map snd concat].
+  - rewrite <- app_assoc. apply Permutation_sym. cbn [app]. apply Permutation_cons_app. reflexivity.
+  - cbn [app]. reflexivity.
+  - eapply Permutation_trans; [apply Permutation_app_head; exact IH|].
+    apply Permutation_sym, Permutation_middle.
+Qed.
+
+Lemma bucket_insert_keys k p m k0 :
+  In k0 (map fst (bucket_insert k p m)) <-> k0 = k \/ In k0 (map fst m).
+Proof.
+  induction m as [|[k' ps] m IH]; cbn [bucket_insert]; [cbn; intuition congruence|].
+  destruct (str_compare k k') eqn:E; cbn [map fst In].
+  - apply str_compare_eq in E. subst k'. intuition.
+  - intuition.
+  - rewrite IH. intuition.
+Qed.
+
+Lemma bucket_insert_sorted k p m :
+  StronglySorted str_lt (map fst m) -> StronglySorted str_lt (map fst (bucket_insert k p m)).
+Proof.
+  induction m as [|[k' ps] m IH]; cbn [bucket_insert]; intros S.
+  - cbn. constructor; constructor.
+  - cbn [map fst] in S. inversion S as [|? ? S' M]; subst.
+    destruct (str_compare k k') eqn:E; cbn [map fst].
+    + exact S.
+    + constructor; [exact S|]. constructor; [exact E|]. rewrite Forall_forall in *. intros z Hz.
+      eapply str_compare_trans; [exact E | now apply M].
+    + constructor; [now apply IH|]. rewrite Forall_forall in *. intros z Hz.
+      apply bucket_insert_keys in Hz. destruct Hz as [->|Hz].
+      * unfold str_lt. rewrite str_compare_antisym, E. reflexivity.
+      * now apply M.
+Qed.
+
+Lemma bucket_insert_ok k p m : payee_is k p -> buckets_ok m -> buckets_ok (bucket_insert k p m).
+Proof.
+  unfold buckets_ok. intros Hp. induction m as [|[k' ps] m IH]; cbn [bucket_insert]; intros F.
+  - constructor; [|constructor]. cbn. constructor; [exact Hp|constructor].
+  - inversion F as [|? ? F1 F2]; subst. destruct (str_compare k k') eqn:E.
+    + apply str_compare_eq in E. subst k'. constructor; [|exact F2].
+      cbn [fst snd] in *. apply Forall_app. split; [exact F1|]. constructor; [exact Hp|constructor].
+    + constructor; [|exact F]. cbn. constructor; [exact Hp|constructor].
+    + constructor; [exact F1|]. now apply IH.
+Qed.
+
+Lemma payee_buckets_spec l : forall m m',
+  payee_buckets m l = Ok m' ->
+  Permutation (concat (map snd m')) (concat (map snd m) ++ l) /\
+  (StronglySorted str_lt (map fst m) -> StronglySorted str_lt (map fst m')) /\
+  (buckets_ok m -> buckets_ok m').
+Proof.
+  induction l as [|p l IH]; intros m m' H; cbn [payee_buckets] in H.
+  - injection H as <-. rewrite app_nil_r. split; [reflexivity|]. split; auto.
+  - destruct (payee_text p) as [k|] eqn:PT; cbn [bind] in H; [|discriminate].
+    assert (Hp : payee_is k p).
+    { unfold payee_text in PT. unfold payee_is. destruct (ppayee p); try discriminate. now injection PT as ->. }
+    destruct (IH _ _ H) as (A1 & A2 & A3). split; [|split].
+    + eapply Permutation_trans; [exact A1|].
+      eapply Permutation_trans; [apply Permutation_app_tail; apply bucket_insert_perm|].
+      cbn [app]. apply Permutation_middle.
+    + intros S. apply A2, bucket_insert_sorted, S.
+    + intros F. apply A3, bucket_insert_ok; assumption.
+Qed.
+
+(* --by-payee: the postings are partitioned by payee (distinct payees in order; every
+   bucket holds postings of its payee only; together they are the input); each bucket is
+   reported as by subtotal_posts; the grand total is preserved *)
+Theorem by_payee_sums l rows :
+  by_payee l = Ok rows ->
+  exists m rr,
+    Permutation (concat (map snd m)) l /\
+    StronglySorted str_lt (map fst m) /\
+    buckets_ok m /\
+    rows = concat rr /\
+    Forall2 (fun e o => exists b, subtotal_group (fun _ => PName (fst e)) (xid_subtotal b) (snd e) = Ok o) m rr /\
+    forall c, (sum_den rows c == sum_den l c)%Q.
+Proof.
+  unfold by_payee. destruct (payee_buckets [] l) as [m|] eqn:B; cbn [bind]; [|discriminate].
+  intros H. destruct (payee_buckets_spec l [] m B) as (P & S & F).
+  destruct (report_buckets_rows PName m 0 rows H) as (rr & E & F2).
+  exists m, rr. split; [exact P|]. split; [apply S; constructor|]. split; [apply F; constructor|].
+  split; [exact E|]. split; [exact F2|].
+  intros c. rewrite (report_buckets_total PName m 0 rows c H), buckets_total_concat.
+  now apply sum_den_perm.
+Qed.
+
+Lemma day_of_week_range d : 0 <= day_of_week d < 7.
+Proof. unfold day_of_week. apply Z.mod_pos_bound. lia. Qed.
+
+Definition week : list Z := [0; 1; 2; 3; 4; 5; 6].
+
+Lemma dow_split l c :
+  (sum_den l c == buckets_total (map (fun i => (i, dow_bucket i l)) week) c)%Q.
+Proof.
+  unfold week. cbn [map buckets_total snd]. unfold dow_bucket.
+  induction l as [|p l IH]; cbn [filter sum_den]; [lra|].
+  pose proof (day_of_week_range (pdate p)) as R.
+  assert (day_of_week (pdate p) = 0 \/ day_of_week (pdate p) = 1 \/ day_of_week (pdate p) = 2 \/
+          day_of_week (pdate p) = 3 \/ day_of_week (pdate p) = 4 \/ day_of_week (pdate p) = 5 \/
+          day_of_week (pdate p) = 6) as D by lia.
+  destruct D as [D|[D|[D|[D|[D|[D|D]]]]]]; rewrite D; cbn [Z.eqb Pos.eqb sum_den]; lra.
+Qed.
+
+(* --dow: bucket i holds exactly the postings dated on weekday i, in order; each non-empty
+   bucket is reported as by subtotal_posts; the grand total is preserved *)
+Theorem dow_sums l rows :
+  day_of_week_posts l = Ok rows ->
+  exists rr,
+    rows = concat rr /\
+    Forall2 (fun e o => exists b, subtotal_group (fun _ => PDow (fst e)) (xid_subtotal b) (snd e) = Ok o)
+            (map (fun i => (i, filter (fun p => day_of_week (pdate p) =? i) l)) week) rr /\
+    (forall p, In p l -> exists i, In i week /\ day_of_week (pdate p) = i) /\
+    forall c, (sum_den rows c == sum_den l c)%Q.
+Proof.
+  unfold day_of_week_posts. intros H.
+  destruct (report_buckets_rows PDow _ 0 rows H) as (rr & E & F2).
+  exists rr. repeat split; try assumption.
+  - intros p _. exists (day_of_week (pdate p)). split; [|reflexivity].
+    pose proof (day_of_week_range (pdate p)). unfold week. cbn [In]. lia.
+  - intros c. rewrite (report_buckets_total PDow _ 0 rows c H). symmetry. apply dow_split.
+Qed.
+
+(* --subtotal *)
+Theorem subtotal_sums l rows :
+  subtotal l = Ok rows ->
+  StronglySorted str_lt (map pacct rows) /\
+  (forall a, In a (map pacct rows) <-> exists p, In p l /\ pacct p = a) /\
+  (forall r c, In r rows -> (den (pamt r) c == sum_den (filter (acct_is (pacct r)) l) c)%Q) /\
+  (forall c, (sum_den rows c == sum_den l c)%Q).
+Proof. apply subtotal_group_sums. Qed.
+
+(* ---- collapse_posts ---- *)
+Fixpoint tm_at (k : str) (m : list (str * value)) (c : option comm) : Q :=
+  match m with
+  | [] => 0
+  | e :: m' => (if str_eqb (fst e) k then den (snd e) c else 0) + tm_at k m' c
+  end.
+
+Fixpoint tm_total (m : list (str * value)) (c : option comm) : Q :=
+  match m with
+  | [] => 0
+  | e :: m' => den (snd e) c + tm_total m' c
+  end.
+
+Lemma totals_add_spec k v m : forall m',
+  totals_add k v m = Ok m' ->
+  (forall k0 c, (tm_at k0 m' c == tm_at k0 m c + (if str_eqb k k0 then den v c else 0))%Q) /\
+  (forall c, (tm_total m' c == tm_total m c + den v c)%Q) /\
+  (forall k0, In k0 (map fst m') <-> k0 = k \/ In k0 (map fst m)) /\
+  (NoDup (map fst m) -> NoDup (map fst m')).
+Proof.
+  induction m as [|[k' v'] m IH]; intros m' H; cbn [totals_add] in H.
+  - injection H as <-. cbn [tm_at tm_total map fst snd In]. split; [|split; [|split]].
+    + intros. lra.
+    + intros. lra.
+    + intros. intuition congruence.
+    + intros _. constructor; [intros []|constructor].
+  - destruct (str_eqb k k') eqn:E.
+    + destruct (v_add false v' v) as [s|] eqn:A; cbn [bind] in H; [|discriminate].
+      injection H as <-. apply str_eqb_spec in E. subst k'.
+      cbn [tm_at tm_total map fst snd In]. split; [|split; [|split]].
+      * intros k0 c. pose proof (v_add_exact _ _ _ _ c A). destruct (str_eqb k k0); lra.
+      * intros c. pose proof (v_add_exact _ _ _ _ c A). lra.
+      * intros. intuition congruence.
+      * trivial.
+    + destruct (totals_add k v m) as [r|] eqn:R; cbn [bind] in H; [|discriminate].
+      injection H as <-. destruct (IH r eq_refl) as (I1 & I2 & I3 & I4).
+      cbn [tm_at tm_total map fst snd In]. split; [|split; [|split]].
+      * intros. rewrite I1. lra.
+      * intros. rewrite I2. lra.
+      * intros. rewrite I3. intuition congruence.
+      * intros N. inversion N as [|? ? N1 N2]; subst. constructor; [|now apply I4].
+        rewrite I3. intros [->|Hin]; [|tauto]. rewrite str_eqb_refl in E. discriminate.
+Qed.
+
+Definition key_is (depth : Z) (k : str) (p : post) : bool := str_eqb (totals_key depth p) k.
+
+Lemma totals_feed_spec depth l : forall m m',
+  totals_feed depth m l = Ok m' ->
+  (forall k c, (tm_at k m' c == tm_at k m c + sum_den (filter (key_is depth k) l) c)%Q) /\
+  (forall c, (tm_total m' c == tm_total m c + sum_den l c)%Q) /\
+  (forall k, In k (map fst m') <-> In k (map fst m) \/ exists p, In p l /\ totals_key depth p = k) /\
+  (NoDup (map fst m) -> NoDup (map fst m')).
+Proof.
+  induction l as [|p l IH]; intros m m' H; cbn [totals_feed] in H.
+  - injection H as <-. cbn [filter sum_den]. repeat split; intros; try lra; try tauto.
+    destruct H as [H|(p & [] & _)]. exact H.
+  - destruct (totals_add (totals_key depth p) (pamt p) m) as [m1|] eqn:I; cbn [bind] in H; [|discriminate].
+    destruct (IH m1 m' H) as (A1 & A2 & A3 & A4).
+    destruct (totals_add_spec _ _ _ _ I) as (B1 & B2 & B3 & B4). repeat split.
+    + intros k c. rewrite A1, B1. cbn [filter]. unfold key_is at 2.
+      destruct (str_eqb (totals_key depth p) k); cbn [sum_den]; lra.
+    + intros c. rewrite A2, B2. cbn [sum_den]. lra.
+    + rewrite A3, B3. intros [[->|H1]|(q & Hq & E)].
+      * right. exists p. split; [now left|reflexivity].
+      * now left.
+      * right. exists q. split; [now right|exact E].
+    + rewrite A3, B3. intros [H1|(q & [->|Hq] & E)].
+      * left. now right.
+      * left. now left.
+      * right. exists q. split; assumption.
+    + intros N. apply A4, B4, N.
+Qed.
+
+Lemma tm_at_absent k (m : list (str * value)) c : ~ In k (map fst m) -> (tm_at k m c == 0)%Q.
+Proof.
+  induction m as [|e m IH]; intros H; cbn [tm_at]; [lra|].
+  cbn [map In] in H. destruct (str_eqb (fst e) k) eqn:E.
+  - apply str_eqb_spec in E. tauto.
+  - rewrite IH by tauto. lra.
+Qed.
+
+Lemma tm_at_entry (m : list (str * value)) : NoDup (map fst m) ->
+  forall e c, In e m -> (tm_at (fst e) m c == den (snd e) c)%Q.
+Proof.
+  induction m as [|e0 m IH]; intros N e c H; [destruct H|].
+  cbn [map] in N. inversion N as [|? ? N1 N2]; subst. cbn [tm_at]. destruct H as [->|H].
+  - rewrite str_eqb_refl. rewrite (tm_at_absent _ _ _ N1). lra.
+  - assert (str_eqb (fst e0) (fst e) = false) as ->.
+    { destruct (str_eqb (fst e0) (fst e)) eqn:E; [|reflexivity]. apply str_eqb_spec in E.
+      exfalso. apply N1. rewrite E. now apply in_map. }
+    rewrite (IH N2 e c H). lra.
+Qed.
+
+(* the rows collapse_posts makes for the component posts of one transaction: the posting
+   itself (--collapse, a single posting), or one row per key (<Total>, or the account cut
+   at the depth), each the exact sum of the postings with that key; total preserved *)
+Definition generated_rows (depth g : Z) (comps : list post) (m : list (str * value)) : list post :=
+  map (fun e => mkPost (xid_collapse g) (range_start comps) (range_finish comps)
+                       (last_payee comps) (fst e) false 0 (snd e)) m.
+
+Lemma collapse_group_cases depth g comps rows :
+  collapse_group depth g comps = Ok rows ->
+  (depth = 0 /\ (exists p, comps = [p]) /\ rows = comps) \/
+  exists m, totals_feed depth [] comps = Ok m /\ rows = generated_rows depth g comps m.
+Proof.
+  unfold collapse_group, generated_rows. destruct comps as [|p [|q comps]].
+  - cbn [totals_feed bind]. intros [= <-]. right. exists []. split; reflexivity.
+  - destruct (depth =? 0) eqn:E.
+    + intros [= <-]. left. apply Z.eqb_eq in E. split; [exact E|]. split; [now exists p|reflexivity].
+    + destruct (totals_feed depth [] [p]) as [m|]; cbn [bind]; [|discriminate].
+      intros [= <-]. right. exists m. split; reflexivity.
+  - destruct (totals_feed depth [] (p :: q :: comps)) as [m|]; cbn [bind]; [|discriminate].
+    intros [= <-]. right. exists m. split; reflexivity.
+Qed.
+
+Theorem collapse_group_sums depth g comps rows :
+  collapse_group depth g comps = Ok rows ->
+  (forall c, (sum_den rows c == sum_den comps c)%Q) /\
+  (rows = comps \/
+   (NoDup (map pacct rows) /\
+    (forall a, In a (map pacct rows) <-> exists p, In p comps /\ totals_key depth p = a) /\
+    forall r c, In r rows ->
+      (den (pamt r) c == sum_den (filter (key_is depth (pacct r)) comps) c)%Q)).
+Proof.
+  intros H. destruct (collapse_group_cases _ _ _ _ H) as [(_ & _ & ->)|(m & F & ->)].
+  - split; [intros; lra|now left].
+  - destruct (totals_feed_spec depth comps [] m F) as (A1 & A2 & A3 & A4).
+    assert (N : NoDup (map fst m)) by (apply A4; constructor).
+    assert (MP : map pacct (generated_rows depth g comps m) = map fst m).
+    { unfold generated_rows. rewrite map_map. reflexivity. }
+    split.
+    + intros c. rewrite <- (Qplus_0_l (sum_den comps c)). change 0%Q with (tm_total [] c).
+      rewrite <- A2. unfold generated_rows. clear. induction m as [|e m IH]; cbn [map sum_den tm_total pamt]; [lra|].
+      rewrite IH. lra.
+    + right. rewrite MP. split; [exact N|]. split.
+      * intros a. rewrite A3. cbn [map In]. tauto.
+      * intros r c Hr. unfold generated_rows in Hr. apply in_map_iff in Hr. destruct Hr as (e & <- & He).
+        cbn [pamt pacct]. rewrite <- (tm_at_entry m N e c He), A1. cbn [tm_at]. lra.
+Qed.
+
+Lemma runs_from_concat l : forall cur x, concat (runs_from cur x l) = cur ++ l.
+Proof.
+  induction l as [|p l IH]; intros cur x; cbn [runs_from].
+  - cbn. now rewrite app_nil_r.
+  - destruct (pxact p =? x).
+    + rewrite IH, <- app_assoc. reflexivity.
+    + cbn [concat]. rewrite IH. reflexivity.
+Qed.
+
+Lemma runs_concat l : concat (runs l) = l.
+Proof. destruct l as [|p l]; [reflexivity|]. unfold runs. now rewrite runs_from_concat. Qed.
+
+Lemma collapse_runs_rows depth : forall rs g rows,
+  collapse_runs depth g rs = Ok rows ->
+  exists rr, rows = concat rr /\
+    Forall2 (fun r o => exists g', collapse_group depth g' r = Ok o) rs rr.
+Proof.
+  induction rs as [|r rs IH]; intros g rows H; cbn [collapse_runs] in H.
+  - injection H as <-. exists []. split; [reflexivity|constructor].
+  - destruct (collapse_group depth g r) as [o|] eqn:R; cbn [bind] in H; [|discriminate].
+    destruct (collapse_runs depth (g + 1) rs) as [os|] eqn:RS; cbn [bind] in H; [|discriminate].
+    injection H as <-. destruct (IH _ _ RS) as (rr & -> & F).
+    exists (o :: rr). split; [reflexivity|]. constructor; [|exact F]. exists g. exact R.
+Qed.
+
+(* --collapse / --depth: the stream is cut into its transactions, each is replaced by the
+   rows of collapse_group_sums; the grand total is preserved *)
+Theorem collapse_sums depth l rows :
+  collapse depth l = Ok rows ->
+  concat (runs l) = l /\
+  (exists rr, rows = concat rr /\
+     Forall2 (fun r o => exists g, collapse_group depth g r = Ok o) (runs l) rr) /\
+  forall c, (sum_den rows c == sum_den l c)%Q.
+Proof.
+  unfold collapse. intros H. split; [apply runs_concat|].
+  destruct (collapse_runs_rows depth _ _ _ H) as (rr & E & F). split; [now exists rr|].
+  intros c. subst rows. clear H.
+  transitivity (sum_den (concat (runs l)) c); [|now rewrite runs_concat].
+  induction F as [|r o rs rr (g & R) F IH]; cbn [concat sum_den]; [lra|].
+  rewrite !sum_den_app, IH. destruct (collapse_group_sums _ _ _ _ R) as [T _]. rewrite T. lra.
+Qed.
+
+(* the transactions collapse_posts sees are the ones truncate_xacts counts *)
+Lemma xruns_const x cur : cur <> [] -> Forall (fun p => pxact p = x) cur -> xruns pxact cur = [cur].
+Proof.
+  induction cur as [|p cur IH]; intros N F; [congruence|].
+  inversion F as [|? ? Hp F']; subst. destruct cur as [|q cur]; [reflexivity|].
+  rewrite xruns_cons2. inversion F' as [|? ? Hq _]; subst. rewrite Hq, Z.eqb_refl.
+  rewrite IH; [reflexivity|discriminate|exact F'].
+Qed.
+
+Lemma xruns_break x cur p l : cur <> [] -> Forall (fun q => pxact q = x) cur -> pxact p <> x ->
+  xruns pxact (cur ++ p :: l) = cur :: xruns pxact (p :: l).
+Proof.
+  induction cur as [|q cur IH]; intros N F Hp; [congruence|].
+  inversion F as [|? ? Hq F']; subst. destruct cur as [|q' cur].
+  - cbn [app]. rewrite xruns_cons2. replace (pxact q =? pxact p) with false; [reflexivity|].
+    symmetry. apply Z.eqb_neq. congruence.
+  - change ((q :: q' :: cur) ++ p :: l) with (q :: q' :: (cur ++ p :: l)).
+    rewrite xruns_cons2. inversion F' as [|? ? Hq' _]; subst. rewrite Hq', Z.eqb_refl.
+    change (q' :: cur ++ p :: l) with ((q' :: cur) ++ p :: l).
+    rewrite IH; [reflexivity|discriminate|exact F'|exact Hp].
+Qed.
+
+Lemma runs_from_xruns l : forall cur x, cur <> [] -> Forall (fun p => pxact p = x) cur ->
+  runs_from cur x l = xruns pxact (cur ++ l).
+Proof.
+  induction l as [|p l IH]; intros cur x N F; cbn [runs_from].
+  - rewrite app_nil_r. symmetry. now apply (xruns_const x).
+  - destruct (pxact p =? x) eqn:E.
+    + apply Z.eqb_eq in E. rewrite IH.
+      * now rewrite <- app_assoc.
+      * destruct cur; discriminate.
+      * apply Forall_app. split; [exact F|]. constructor; [exact E|constructor].
+    + apply Z.eqb_neq in E. rewrite (xruns_break x) by assumption. f_equal.
+      rewrite (IH [p] (pxact p)); [reflexivity|discriminate|].
+      constructor; [reflexivity|constructor].
+Qed.
+
+Theorem runs_are_xruns l : runs l = xruns pxact l.
+Proof.
+  destruct l as [|p l]; [reflexivity|]. unfold runs.
+  rewrite (runs_from_xruns l [p] (pxact p)); [reflexivity|discriminate|].
+  constructor; [reflexivity|constructor].
+Qed.
+
+(* ====================================================================================== *)
+(* 5. calc_posts and the whole chain                                                      *)
+(* ====================================================================================== *)
+
+Lemma last_cons_default {A} (q : list A) : forall t d, last (t :: q) d = last q t.
+Proof.
+  induction q as [|x q IH]; intros t d; [reflexivity|].
+  change (last (t :: x :: q) d) with (last (x :: q) d). now rewrite (IH x d), (IH x t).
+Qed.
+
+(* every row keeps its posting; its running total is the total before plus the exact sum
+   of the rows so far *)
+Lemma calc_spec l : forall tot rows,
+  calc tot l = Ok rows ->
+  map fst rows = l /\
+  forall k c, (k <= length l)%nat ->
+    (den (last (map snd (firstn k rows)) tot) c == den tot c + sum_den (firstn k l) c)%Q.
+Proof.
+  induction l as [|p l IH]; intros tot rows H; cbn [calc] in H.
+  - injection H as <-. split; [reflexivity|]. intros k c Hk. cbn in Hk.
+    replace k with 0%nat by lia. cbn. lra.
+  - destruct (v_add false tot (pamt p)) as [t|] eqn:A; cbn [bind] in H; [|discriminate].
+    destruct (calc t l) as [r|] eqn:C; cbn [bind] in H; [|discriminate].
+    injection H as <-. destruct (IH t r C) as [M T]. split; [cbn [map fst]; now rewrite M|].
+    intros k c Hk. destruct k as [|k]; [cbn; lra|].
+    cbn [firstn map snd sum_den]. cbn [length] in Hk.
+    pose proof (T k c ltac:(lia)) as Tk. pose proof (v_add_exact _ _ _ _ c A) as D.
+    assert (last (t :: map snd (firstn k r)) tot = last (map snd (firstn k r)) t) as ->.
+    { apply last_cons_default. }
+    rewrite Tk, D. lra.
+Qed.
+
+(* the grand total shown in the last row is the exact sum of all rows *)
+Corollary calc_grand_total l rows c :
+  calc VVoid l = Ok rows ->
+  (den (last (map snd rows) VVoid) c == sum_den l c)%Q.
+Proof.
+  intros H. destruct (calc_spec l VVoid rows H) as [M T].
+  pose proof (T (length l) c (le_n _)) as E. rewrite firstn_all in E.
+  assert (length rows = length l) as L by (rewrite <- M; now rewrite map_length).
+  rewrite <- L, firstn_all in E. rewrite E. cbn [den]. lra.
+Qed.
+
+(* --sort alone (no regrouping): the register holds the same postings, in the unique stable
+   order, and the grand total is the one of the unsorted register *)
+Theorem sort_report_spec f ks l rows :
+  report (mkOpts f GNone None (Some ks) None None) l = Ok rows ->
+  let inp := filter (keep_post f) l in
+  Permutation inp (map fst rows) /\
+  (sort_determined ks inp = true ->
+     is_stable_sort (post_lt ks) inp (map fst rows) /\
+     forall l'', is_stable_sort (post_lt ks) inp l'' -> l'' = map fst rows) /\
+  forall c, (den (last (map snd rows) VVoid) c == sum_den inp c)%Q.
+Proof.
+  unfold report, before_sort. cbn [o_group o_filt o_collapse o_sort o_head o_tail stage_group stage_collapse
+                                    stage_sort stage_truncate bind].
+  destruct (sort_posts ks (filter (keep_post f) l)) as [s|] eqn:S; cbn [bind]; [|discriminate].
+  destruct (calc VVoid s) as [r|] eqn:C; cbn [bind]; [|discriminate].
+  intros [= <-]. cbn zeta. destruct (calc_spec s VVoid r C) as [M _]. rewrite M.
+  destruct (sort_posts_perm _ _ _ S) as [P _]. split; [exact P|]. split.
+  - intros D. exact (sort_posts_spec _ _ _ S D).
+  - intros c. rewrite (calc_grand_total s r c C). symmetry. now apply sum_den_perm.
+Qed.
+
+(* --head / --tail on any report: rows and running totals of the kept transactions are the
+   ones of the report without the option *)
+Theorem window_report_spec f g cl s h t l rows :
+  report (mkOpts f g cl s h t) l = Ok rows ->
+  exists full, report (mkOpts f g cl s None None) l = Ok full /\
+    rows = match h, t with
+           | None, None => full
+           | _, _ => select (trunc_print (zopt h) (zopt t)
+                               (Z.of_nat (length (xruns (fun r => pxact (fst r)) full))))
+                            0 (xruns (fun r => pxact (fst r)) full)
+           end.
+Proof.
+  unfold report, before_sort. cbn [o_head o_tail o_sort o_group o_filt o_collapse].
+  destruct (stage_group g (filter (keep_post f) l)) as [c0|]; cbn [bind]; [|discriminate].
+  destruct (stage_collapse cl c0) as [c|]; cbn [bind]; [|discriminate].
+  destruct (stage_sort s c) as [x|]; cbn [bind]; [|discriminate].
+  destruct (calc VVoid x) as [r|]; cbn [bind]; [|discriminate].
+  intros [= <-]. exists r. split; [reflexivity|]. unfold stage_truncate.
+  destruct h, t; try reflexivity; apply truncate_select.
+Qed.
+
+(* --depth N (N <> 0): every transaction is replaced by one row per account cut at depth N *)
+Theorem depth_group_sums depth g comps rows :
+  depth <> 0 -> collapse_group depth g comps = Ok rows ->
+  NoDup (map pacct rows) /\
+  (forall a, In a (map pacct rows) <-> exists p, In p comps /\ take_segs (Z.to_nat depth) (pacct p) = a) /\
+  (forall r c, In r rows ->
+     (den (pamt r) c ==
+      sum_den (filter (fun p => str_eqb (take_segs (Z.to_nat depth) (pacct p)) (pacct r)) comps) c)%Q) /\
+  forall c, (sum_den rows c == sum_den comps c)%Q.
+Proof.
+  intros Hd H. destruct (collapse_group_sums _ _ _ _ H) as [T G].
+  assert (K : forall p, totals_key depth p = take_segs (Z.to_nat depth) (pacct p)).
+  { intros p. unfold totals_key. apply Z.eqb_neq in Hd. now rewrite Hd. }
+  destruct (collapse_group_cases _ _ _ _ H) as [(E & _)|(m & F & ->)]; [contradiction|].
+  destruct G as [G|(N & I & S)].
+  - (* rows = comps can still happen; the statement below holds for the generated rows *)
+    destruct (totals_feed_spec depth comps [] m F) as (A1 & A2 & A3 & A4).
+    assert (ND : NoDup (map fst m)) by (apply A4; constructor).
+    assert (MP : map pacct (generated_rows depth g comps m) = map fst m)
+      by (unfold generated_rows; rewrite map_map; reflexivity).
+    rewrite MP. split; [exact ND|]. split; [|split; [|exact T]].
+    + intros a. rewrite A3. cbn [map In]. split.
+      * intros [[]|(p & Hp & E)]. exists p. now rewrite <- K.
+      * intros (p & Hp & E). right. exists p. now rewrite K.
+    + intros r c Hr. unfold generated_rows in Hr. apply in_map_iff in Hr. destruct Hr as (e & <- & He).
+      cbn [pamt pacct]. rewrite <- (tm_at_entry m ND e c He), A1. cbn [tm_at].
+      assert (filter (key_is depth (fst e)) comps =
+              filter (fun p => str_eqb (take_segs (Z.to_nat depth) (pacct p)) (fst e)) comps) as ->.
+      { apply filter_ext. intros p. unfold key_is. now rewrite K. }
+      lra.
+  - split; [exact N|]. split; [|split; [|exact T]].
+    + intros a. rewrite I. split; intros (p & Hp & E); exists p; [now rewrite <- K|now rewrite K].
+    + intros r c Hr. rewrite (S r c Hr).
+      assert (filter (key_is depth (pacct r)) comps =
+              filter (fun p => str_eqb (take_segs (Z.to_nat depth) (pacct p)) (pacct r)) comps) as ->.
+      { apply filter_ext. intros p. unfold key_is. now rewrite K. }
+      lra.
+Qed.
